@@ -176,6 +176,8 @@ pub struct SimStats {
     pub short_write_split_utf8: u64,
     pub bytes_read: u64,
     pub bytes_written: u64,
+    /// paths (relative to the scenario root) whose open/read was failed by a hard fault
+    pub hard_faulted: Vec<String>,
 }
 
 struct DirState {
@@ -200,6 +202,7 @@ struct State {
     trace: Fnv,
     dirs: Vec<DirState>,
     fd_class: [u8; MAX_FD],
+    fd_path: Vec<Option<String>>,
 }
 
 struct Global(UnsafeCell<Option<State>>);
@@ -258,6 +261,7 @@ pub fn arm(cfg: SimCfg) {
         trace: Fnv::new(),
         dirs: Vec::with_capacity(8),
         fd_class: [0; MAX_FD],
+        fd_path: vec![None; MAX_FD],
         cfg,
     };
     if let FaultPlan::Script(ref mut evs) = state.cfg.faults {
@@ -293,6 +297,18 @@ pub fn register_fd(fd: c_int, class: FdClass) {
     }
     let _g = Guard::take();
     st().fd_class[fd as usize] = class as u8;
+}
+
+/// Like `register_fd`, remembering which scenario file the descriptor stands for.
+pub fn register_fd_path(fd: c_int, class: FdClass, abs_path: &str) {
+    if !is_armed() || fd < 0 || fd as usize >= MAX_FD {
+        return;
+    }
+    let _g = Guard::take();
+    let s = st();
+    s.fd_class[fd as usize] = class as u8;
+    let root = String::from_utf8_lossy(&s.cfg.root).into_owned();
+    s.fd_path[fd as usize] = Some(abs_path.strip_prefix(&root).unwrap_or(abs_path).to_string());
 }
 
 fn decide(s: &mut State, seam: Seam, req: usize) -> (Act, u32) {
@@ -460,10 +476,20 @@ pub unsafe extern "C" fn read(fd: c_int, buf: *mut c_void, count: size_t) -> ssi
                     return -1;
                 }
                 Act::Eio => {
+                    if let Some(Some(p)) = s.fd_path.get(fd as usize) {
+                        let p = p.clone();
+                        s.stats.hard_faulted.push(p);
+                    }
                     set_errno(libc::EIO);
                     return -1;
                 }
-                Act::Eof => return 0,
+                Act::Eof => {
+                    if let Some(Some(p)) = s.fd_path.get(fd as usize) {
+                        let p = format!("eof:{}", p);
+                        s.stats.hard_faulted.push(p);
+                    }
+                    return 0;
+                }
                 _ => {}
             }
             let want = if act == Act::Short { core::cmp::min(count, arg as usize) } else { count };
@@ -530,6 +556,12 @@ unsafe fn classify_path(s: &State, path: *const c_char) -> FdClass {
     }
 }
 
+unsafe fn rel_of(s: &State, path: *const c_char) -> String {
+    let p = std::ffi::CStr::from_ptr(path).to_bytes();
+    let rest = if p.starts_with(&s.cfg.root) { &p[s.cfg.root.len()..] } else { p };
+    String::from_utf8_lossy(rest).into_owned()
+}
+
 #[no_mangle]
 pub unsafe extern "C" fn open64(path: *const c_char, flags: c_int, mode: libc::mode_t) -> c_int {
     if ARMED.load(Ordering::Relaxed) && !path.is_null() {
@@ -548,6 +580,7 @@ pub unsafe extern "C" fn open64(path: *const c_char, flags: c_int, mode: libc::m
                     _ => 0,
                 };
                 if e != 0 {
+                    s.stats.hard_faulted.push(rel_of(s, path));
                     set_errno(e);
                     return -1;
                 }
@@ -555,6 +588,8 @@ pub unsafe extern "C" fn open64(path: *const c_char, flags: c_int, mode: libc::m
             let fd = libc::syscall(libc::SYS_openat, libc::AT_FDCWD, path, flags, mode as c_uint) as c_int;
             if fd >= 0 && (fd as usize) < MAX_FD {
                 s.fd_class[fd as usize] = class as u8;
+                let rel = rel_of(s, path);
+                s.fd_path[fd as usize] = Some(rel);
             }
             return fd;
         }
@@ -572,6 +607,7 @@ pub unsafe extern "C" fn close(fd: c_int) -> c_int {
     if ARMED.load(Ordering::Relaxed) && fd >= 0 && (fd as usize) < MAX_FD {
         let _g = Guard::take();
         st().fd_class[fd as usize] = 0;
+        st().fd_path[fd as usize] = None;
     }
     libc::syscall(libc::SYS_close, fd) as c_int
 }
